@@ -43,7 +43,12 @@ def r1(ctx):
     ctx.check(mx == 3, R, "const:_DISCOVERY_MAX_REQUESTS", m, m.assign_nodes["_DISCOVERY_MAX_REQUESTS"], "3", repr(mx))
     f = fn_of(ctx, DISC, "AirTouchDiscoverer.search")
     g = f.cfg
-    sends = f.calls("transport.sendto")
+    # the datagram endpoint by role: the local bound to the result of `await self._open_socket(...)`
+    tvar = "transport"
+    for n_, c_ in f.calls("self._open_socket"):
+        if isinstance(n_.ast, ast.Assign) and isinstance(n_.ast.targets[0], ast.Name):
+            tvar = n_.ast.targets[0].id
+    sends = f.calls(f"{tvar}.sendto")
     sleeps = f.calls("asyncio.sleep")
     loops = [x for x in ast.walk(f.node) if isinstance(x, (ast.While, ast.For))]
     if len(loops) != 1 or not sends:
@@ -68,7 +73,7 @@ def r1(ctx):
     n_iter, stops_on_response = _loop_iterations(ctx, m, f, lp)
     ctx.check(n_iter == 3, R, "search:at-most-three-requests", m, lp, "with no answer exactly _DISCOVERY_MAX_REQUESTS = 3 requests are sent, then the loop ends", f"{n_iter} iteration(s)" if n_iter is not None else "loop bound not derivable (may not terminate)")
     ctx.check(stops_on_response, R, "search:stops-after-first-answered-interval", m, lp, "the loop ends as soon as `responses` is non-empty", "the loop condition ignores `responses`")
-    closes = [n for n, c in f.calls("transport.close")]
+    closes = [n for n, c in f.calls(f"{tvar}.close")]
     rets = [n for n in g.nodes if n.kind == "stmt" and isinstance(n.ast, ast.Return)]
     ok = bool(closes) and g.all_paths_pass(g.entry.id, [g.exit.id], [c.id for c in closes], NONEXC) and all(not any(x is c.ast for x in ast.walk(lp)) for c in closes)
     ctx.check(ok, R, "search:closes-transport", m, f.node, "transport.close() after the loop on every normal path", "missing or inside the loop")
